@@ -15,6 +15,7 @@ RULE = ("G-sim traces (1-3 host threads, 1-4 streams, every sync kind, launches 
         "sentinel and >= 1 row without id. Distinct = hash of files + configuration.")
 ASSUMPTIONS = ["well-formed regime re-derived from raw events by hv/wf.py (violating cases are discarded, counted)",
                "reference link rule hv/ref/raw.py::link_oracle", "ijson backends unreachable"]
+FLOAT_KEYS = ["files"]          # fractional-time-unit workload class (hv/shard.py)
 PLAN = {"quick": {"shards": 16, "cases": 1280, "timeout": 600}, "thorough": {"shards": 16, "cases": 12000, "timeout": 3000}}
 FLOORS = {
     "quick": {"distinct_nontrivial": 150, "transform_correlation_to_index.post": 300, "linked_rows": 3000, "zero_sentinels": 300,
